@@ -1,7 +1,8 @@
 """trees.py — configuration trees and parameter shapes (DESIGN.md 5.5)."""
 from vlib import enc
 
-NAMES = [b"10-a.conf", b"9-b.conf", b"B.conf", b"a.conf", b"x.conf", b"noext", b"y.txt", b".hid.conf", b".conf", b"z.conf", b"a.conf.bak"]
+NAMES = [b"10-a.conf", b"9-b.conf", b"B.conf", b"a.conf", b"x.conf", b"noext", b"y.txt", b".hid.conf", b".conf", b"z.conf", b"a.conf.bak",
+         b"\xc3\xa9cole.conf", b"\xff.conf", b"~last.conf", b"zz.conf", b"a\x80.conf"]          # incl. names with bytes above 127 (byte-wise order)
 
 def content(rng, tag):
     """a small conventional file whose values identify where they come from"""
